@@ -130,6 +130,10 @@ def correspondence(ctx, corr):
             corr.expect_fail('capture', {'events': s}, e, i, 'logged parts / outside text differ from the specification')
     corr.sample({'op': 'capture', 'events': ['S', ['W', 'a'], 'X', ['W', 'b'], 'S', 'X'], 'note': 'one of the exhaustive sequences'})
     _alternate(ctx, corr, 60 if q else 600)
+    # statements NEXT TO disabled ones: directive scenarios (block / inline SKIP and REQUIRES on one-line, bracketed, decorated
+    # statements, statements with a comment line inside) — every statement no directive disables runs once, in order (TRACE)
+    from . import _runloop_common as RL
+    RL.run_family(ctx, corr, 'c04_random', {'count': 40 if q else 800})
 
 
 def search(ctx, corr, broken):
@@ -141,6 +145,8 @@ def search(ctx, corr, broken):
         for s, e, i in exp:
             c2.expect_fail('capture', {'events': s}, e, i, 'logged parts / outside text differ from the specification')
     _alternate(ctx, c2, 100)
+    from . import _runloop_common as RL
+    RL.run_family(ctx, c2, 'c04_random', {'count': 120})
     hits = []
     for e in list(c2.expect_failures):
         hits.append({'kind': 'expectation', 'suite': e['suite'], 'input': e['input'], 'expected': e['expected'],
@@ -165,6 +171,9 @@ def replay(ctx, failing):
         sp, so = CC.spec_capture(evs)
         print('events %r\n real: parts=%r outside=%r\n spec: parts=%r outside=%r' % (evs, parts, outside, sp, so))
         return (parts, outside) != (sp, so)
+    if 'program' not in inp and 'text' in inp and 'A' not in inp:
+        from . import _runloop_common as RL
+        return RL.replay_scenario(failing)
     if 'A' in inp:
         print('doctest A:\n%s\ndoctest B:\n%s\nexpected %r' % (inp['A'], inp['B'], failing.get('expected')))
         return True
